@@ -146,6 +146,18 @@ func stripConv(v ssa.Value) ssa.Value {
 // boundedAbove: a dominating guard makes `V > M` (or >=) false for some M accepted by okM. V is compared as is
 // (conversions of V on the guard side are allowed only when they widen or keep signedness - see sameNoSignFlip).
 func boundedAbove(p *core.Prog, at ssa.Instruction, v ssa.Value, okM func(ssa.Value) bool) bool {
+	if rets := throughReturns(p, v); len(rets) > 0 {
+		all := true
+		for _, r := range rets {
+			call := r.call
+			if !boundedAbove(p, r.at, r.val, func(m ssa.Value) bool { return okM(m) || okM(substParam(m, call)) }) {
+				all = false
+			}
+		}
+		if all {
+			return true
+		}
+	}
 	for _, c := range falseAt(p, at) {
 		switch c.Op {
 		case token.GTR, token.GEQ:
@@ -163,6 +175,18 @@ func boundedAbove(p *core.Prog, at ssa.Instruction, v ssa.Value, okM func(ssa.Va
 
 // boundedBelow: a dominating guard makes `V < L` false for some L accepted by okL.
 func boundedBelow(p *core.Prog, at ssa.Instruction, v ssa.Value, okL func(ssa.Value) bool) bool {
+	if rets := throughReturns(p, v); len(rets) > 0 {
+		all := true
+		for _, r := range rets {
+			call := r.call
+			if !boundedBelow(p, r.at, r.val, func(l ssa.Value) bool { return okL(l) || okL(substParam(l, call)) }) {
+				all = false
+			}
+		}
+		if all {
+			return true
+		}
+	}
 	for _, c := range falseAt(p, at) {
 		switch c.Op {
 		case token.LSS:
@@ -219,4 +243,63 @@ func intBits(t types.Type) int {
 		return 64
 	}
 	return 0
+}
+
+type retVal struct {
+	val  ssa.Value
+	at   ssa.Instruction
+	call *ssa.Call
+}
+
+// substParam maps a callee-side value that is (a conversion of) one of the callee's parameters to the
+// caller's argument at the call (re-applying the conversion is left to the comparison, which strips them).
+func substParam(v ssa.Value, call *ssa.Call) ssa.Value {
+	if call == nil {
+		return v
+	}
+	f := call.Call.StaticCallee()
+	if f == nil {
+		return v
+	}
+	inner := stripConv(v)
+	for i, prm := range f.Params {
+		if inner == ssa.Value(prm) && i < len(call.Call.Args) {
+			return call.Call.Args[i]
+		}
+	}
+	return v
+}
+
+// throughReturns: v is the (i-th) result of a call of a repo function: the values returned, each with its
+// Return instruction (guards that dominate the Return hold for the value in the caller).
+func throughReturns(p *core.Prog, v ssa.Value) []retVal {
+	v = stripConv(v)
+	idx := 0
+	var call *ssa.Call
+	switch x := v.(type) {
+	case *ssa.Extract:
+		c, ok := x.Tuple.(*ssa.Call)
+		if !ok {
+			return nil
+		}
+		call, idx = c, x.Index
+	case *ssa.Call:
+		call = x
+	default:
+		return nil
+	}
+	if call.Call.IsInvoke() {
+		return nil
+	}
+	f := call.Call.StaticCallee()
+	if f == nil || !p.InRepo(f) || f.Blocks == nil {
+		return nil
+	}
+	var out []retVal
+	core.AllInstrs(f, func(in ssa.Instruction) {
+		if ret, ok := in.(*ssa.Return); ok && idx < len(ret.Results) {
+			out = append(out, retVal{ret.Results[idx], ret, call})
+		}
+	})
+	return out
 }
